@@ -148,6 +148,35 @@ def r3(ctx, rep):
     rep.check(ok, "sort-columns-named", "columns used in a Sort must get a name (ORDER BY refers to them by name after the projection)", file=en["file"], line=en["l"], fn=en["path"])
 
 
+def state_isolation(stmts, is_fold):
+    """Per `self.<field>` touched in a statement list: (saved before, emptied before, restored after) the first statement for which is_fold(text) holds."""
+    import re
+    st = [show_stmts({"k": "block", "s": [x]}, maxdepth=8) for x in stmts]
+    i_fold = [i for i, t in enumerate(st) if is_fold(t)]
+    out = {}
+    if not i_fold:
+        return out
+    for fld in set(re.findall(r"self\.(\w+)", " ".join(st))):
+        saved = emptied = restored = False
+        names = set()
+        for t in st[:i_fold[0]]:
+            mv = re.match(r"let (\w+) = (?:std::)?mem::(?:take|replace)\(&mut self\." + fld + r"\b", t) or re.match(r"let (\w+) = self\." + fld + r"\.take\(\)", t)
+            cl = re.match(r"let (\w+) = self\." + fld + r"(?:\.clone\(\))?;?$", t)
+            if mv:
+                saved = emptied = True
+                names.add(mv.group(1))
+            elif cl:
+                saved = True
+                names.add(cl.group(1))
+            elif re.match(r"self\." + fld + r"(\.clear\(\)| = (vec!\(\)|Vec::new\(\)|None|false|Default::default\(\)|WindowFrame::default\(\)))", t):
+                emptied = True
+        for t in st[i_fold[0] + 1:]:
+            if any(re.match(r"self\." + fld + r" = " + nm + r";?$", t) for nm in names):
+                restored = True
+        out[fld] = (saved, emptied, restored)
+    return out
+
+
 def join_append_isolation(fl):
     """Per state field of the Flattener: (saved before, emptied before, restored after) the folding of a Join / Append argument.
     saved+emptied: `let x = std::mem::take(&mut self.F)` / `self.F.take()` / `mem::replace(&mut self.F, ..)`, or a clone followed by a clear;  restored: `self.F = x`."""
